@@ -294,7 +294,8 @@ impl DrawExecutor {
     }
 
     fn draw_line(&mut self, x0: i32, y0: i32, x1: i32, y1: i32, color: u8, mask: usize) {
-        let mut line_mask = LINE_STYLE[mask];
+        // user defined line patterns (mask 6) are not implemented: they are drawn solid
+        let mut line_mask = LINE_STYLE.get(mask).copied().unwrap_or(0xFFFF);
 
         let dx = (x0 - x1).abs();
         let dy = (y0 - y1).abs();
